@@ -108,6 +108,11 @@ fn mixes() -> Vec<Mix> {
         // parameters that differ only slightly (a cache keyed on rounded floats would collide)
         Mix { name: "SI+SI cutoffs 3e-5 apart", cfgs: vec![si.clone(), { let mut c = si.clone(); c.f_cutoff += 3.0e-5; c }] },
         Mix { name: "SI+SO downsampling, ratios 5e-5 apart", cfgs: vec![{ let mut c = si.clone(); c.ratio = 0.91875; c }, { let mut c = so.clone(); c.ratio = 0.9187; c }] },
+        // same type and ratios, different chunk sizes (state keyed without the chunk size would collide)
+        Mix { name: "FI+FI chunk 16 and 24", cfgs: vec![fi.clone(), { let mut c = fi.clone(); c.chunk = 24; c }] },
+        Mix { name: "FO+FO chunk 16 and 9", cfgs: vec![fo.clone(), { let mut c = fo.clone(); c.chunk = 9; c }] },
+        Mix { name: "SI+SI chunk 24 and 7", cfgs: vec![si.clone(), { let mut c = si.clone(); c.chunk = 7; c }] },
+        Mix { name: "SO+SO chunk 24 and 7", cfgs: vec![so.clone(), { let mut c = so.clone(); c.chunk = 7; c }] },
         Mix { name: "FO+FO ratios 3e-5 apart", cfgs: vec![fo.clone(), { let mut c = fo.clone(); c.ratio += 3.0e-5; c }] },
     ]
 }
